@@ -392,6 +392,10 @@ def run(prog, rep, tier):
     rep.floor('HCFLAG-mpo', 20)
     rep.floor('HCFLAG-derived', 5)
     rep.assumptions += ['operator values and propagator error scaling are NOT decided']
+    from ..flow import check_dead_computations
+    rep.rule('VALUE-dead', 'no result of a call is bound to a local that is never read (reaching '
+             'definitions)')
+    check_dead_computations(prog, rep, ['tenpy/networks/mpo.py'])
     return rep.finish(
         level='other',
         explanation='Flag exhaustiveness over %d W-using MPO methods, flag forwarding of derived '
